@@ -5,7 +5,7 @@ distinct split path - distinctness of VALUES is assumption A-RNG), integer seed 
 frame of build().  Bit-identical reruns and chain independence need XLA determinism / A-VMAP and are bounded only."""
 from pyvc.api import *
 from contracts.common import KERNELS, sym_da_state, sym_epoch_state, sym_kernel
-from contracts.c07 import E, ENG, install_engine_models, sym_engine
+from contracts.c07 import E, ENG, install_engine_models, ks_stub, names, sym_engine
 from contracts.c11 import blackjax_models
 
 BUILDER = "liesel/goose/builder.py"
@@ -270,3 +270,28 @@ def u_init_keys(ip):
     res = ip.call(method(ip, eng, "_generate_quantity"), [], {})
     c.oblige("each_generator_gets_its_own_draw", len(qkeys) == 2 and str(qkeys[0]) != str(qkeys[1]) and list(res) == ["q0", "q1"])
     c.oblige("no_key_consumed_twice", not c.ghost.get("key_reuse"))
+
+
+@unit("C10.lifecycle_keys", "C10", [f"{E}._end_epoch", f"{E}._tune_kernels", f"{E}._kernel_start_epoch", f"{E}._end_warmup"],
+      summaries=[f"{E}._split_prng_key_one (C10.engine_key_ownership: every call hands out a key never handed out before)", "KernelSequence methods split their key once per kernel (C07.kernel_sequence)"])
+def u_lifecycle_keys(ip):
+    """every lifecycle call into the kernel sequence (start of epoch, end of epoch, tuning, end of warmup) receives its own fresh engine
+    draw: no draw is handed to two calls, so end_epoch() and tune() of the same kernel never see the same key."""
+    c = ip.ctx
+    install_engine_models(ip)
+    for what in ("end_epoch_and_tune", "start_epoch", "end_warmup"):
+        eng = sym_engine(ip)
+        trace = c.ghost["trace"]
+        del trace[:]
+        ep = sym_epoch_state(ip, what)
+        eng.f["_epoch"] = ep
+        eng.f["_kernel_sequence"] = ks_stub(ip, trace)
+        if what == "end_epoch_and_tune":
+            ip.call(method(ip, eng, "_end_epoch"), [], {})
+        elif what == "start_epoch":
+            ip.call(method(ip, eng, "_kernel_start_epoch"), [], {})
+        else:
+            ip.call(method(ip, eng, "_end_warmup"), [], {})
+        keys = [t_[1][0] for t_ in trace if t_[0].startswith("kernel_sequence.")]
+        c.oblige(f"{what}.each_call_gets_a_fresh_engine_draw", len(keys) >= 1 and all(is_z3(k) and str(k).startswith("split_key") for k in keys))
+        c.oblige(f"{what}.no_draw_handed_to_two_calls", len({str(k) for k in keys}) == len(keys), calls=str([t_[0] for t_ in trace if t_[0].startswith("kernel_sequence.")]))
